@@ -22,6 +22,12 @@ Definition schema_side : bool :=
   && enf_index_params_required_VectorFlat && enf_index_params_required_VectorVamana
   && enf_index_params_required_Text
   && enf_flat_validates_quantizer && enf_vamana_validates_quantizer
+  (* the repairs: NaN alpha refused, triggerThreshold always range-checked, product quantizers checked
+     against the index they are attached to *)
+  && enf_alpha_rejects_nan && negb enf_bq_trigger_only_without_threshold
+  && enf_flat_quantizer_for_index && enf_vamana_quantizer_for_index && enf_pq_subvectors_divide_size
+  && sub_list enf_pq_metrics ["euclidean"; "cosine"; "dot"]%string
+  && sub_list enf_pq_exempt_metrics ["hamming"; "jaccard"]%string
   && sub_range enf_flat_vector_size_min enf_flat_vector_size_max doc_flat_vector_size_min doc_flat_vector_size_max
   && sub_range enf_vector_size_min enf_vector_size_max doc_vector_size_min doc_vector_size_max
   && sub_list enf_index_types doc_index_types
@@ -90,7 +96,8 @@ Definition handler_side : bool :=
   && hdl_v2_delete_validates_first && hdl_v2_search_validates_first
   && hdl_v1_create_validates_first && hdl_v1_insert_validates_first && hdl_v1_update_validates_first
   && hdl_v1_delete_validates_first && hdl_v1_search_validates_first
-  && router_recover_outermost && router_app_headers_present && decode_validates.
+  && router_recover_outermost && router_app_headers_present && decode_validates
+  && negb hdl_v1_assumes_vector_vamana.
 Lemma handler_side_ok : handler_side = true. Proof. reflexivity. Qed.
 
 (* split a side condition into its conjuncts *)
@@ -538,21 +545,50 @@ Proof. repeat split; intros; apply guarded_call; assumption. Qed.
 Lemma v1_dim_of_v1_schema : forall r, v1_dim (v1_schema r) = Some (c1_vsize r).
 Proof. reflexivity. Qed.
 
-Lemma v1_no_panic : forall s d, v1_dim s = Some d ->
-  handler_get1 s <> Panic /\ (forall r, handler_insert1 s r <> Panic) /\
+Lemma v1_no_panic : forall s,
+  handler_get1 s <> Panic /\ handler_list1 [s] <> Panic /\ (forall r, handler_insert1 s r <> Panic) /\
   (forall r, handler_update1 s r <> Panic) /\ (forall r, handler_search1 s r <> Panic).
 Proof.
-  intros s d D. repeat split; intros.
-  - unfold handler_get1. rewrite D. discriminate.
-  - unfold handler_insert1, handler_points1. rewrite D.
+  intros s. pose proof handler_side_ok as SS. unfold handler_side in SS. split_side SS.
+  assert (A : hdl_v1_assumes_vector_vamana = false).
+  { match goal with [ X : negb hdl_v1_assumes_vector_vamana = true |- _ ] => apply negb_true_iff in X; exact X end. }
+  repeat split; intros.
+  - unfold handler_get1, handler_get1_gen, missing_index. rewrite A. destruct (v1_dim s); discriminate.
+  - unfold handler_list1, handler_list1_gen. rewrite A. discriminate.
+  - unfold handler_insert1, handler_points1, handler_points1_gen, missing_index. rewrite A.
     destruct (negb hdl_v1_insert_validates_first); [discriminate|].
-    destruct (negb (validate_insert1 r)); [discriminate|]. destruct (points1_fit d r); discriminate.
-  - unfold handler_update1, handler_points1. rewrite D.
+    destruct (negb (validate_insert1 r)); [discriminate|].
+    destruct (v1_dim s) as [d|]; [destruct (points1_fit d r)|]; discriminate.
+  - unfold handler_update1, handler_points1, handler_points1_gen, missing_index. rewrite A.
     destruct (negb hdl_v1_update_validates_first); [discriminate|].
-    destruct (negb (validate_update1 r)); [discriminate|]. destruct (points1_fit d r); discriminate.
-  - unfold handler_search1. rewrite D.
+    destruct (negb (validate_update1 r)); [discriminate|].
+    destruct (v1_dim s) as [d|]; [destruct (points1_fit d r)|]; discriminate.
+  - unfold handler_search1, handler_search1_gen, missing_index. rewrite A.
     destruct (negb hdl_v1_search_validates_first); [discriminate|].
-    destruct (negb (validate_search1 r)); [discriminate|]. destruct (s1_len r =? d); discriminate.
+    destruct (negb (validate_search1 r)); [discriminate|].
+    destruct (v1_dim s) as [d|]; [destruct (s1_len r =? d)|]; discriminate.
+Qed.
+
+(* a collection without a vamana index named "vector" is refused by get / insert / update / search
+   before any cluster call *)
+Lemma v1_missing_index_rejected : forall s, v1_dim s = None ->
+  handler_get1 s = Reject /\ (forall r, handler_insert1 s r = Reject) /\
+  (forall r, handler_update1 s r = Reject) /\ (forall r, handler_search1 s r = Reject).
+Proof.
+  intros s D. pose proof handler_side_ok as SS. unfold handler_side in SS. split_side SS.
+  assert (A : hdl_v1_assumes_vector_vamana = false).
+  { match goal with [ X : negb hdl_v1_assumes_vector_vamana = true |- _ ] => apply negb_true_iff in X; exact X end. }
+  repeat split; intros.
+  - unfold handler_get1, handler_get1_gen, missing_index. rewrite D, A. reflexivity.
+  - unfold handler_insert1, handler_points1, handler_points1_gen, missing_index. rewrite D, A.
+    replace hdl_v1_insert_validates_first with true by (symmetry; assumption). cbn.
+    destruct (validate_insert1 r); reflexivity.
+  - unfold handler_update1, handler_points1, handler_points1_gen, missing_index. rewrite D, A.
+    replace hdl_v1_update_validates_first with true by (symmetry; assumption). cbn.
+    destruct (validate_update1 r); reflexivity.
+  - unfold handler_search1, handler_search1_gen, missing_index. rewrite D, A.
+    replace hdl_v1_search_validates_first with true by (symmetry; assumption). cbn.
+    destruct (validate_search1 r); reflexivity.
 Qed.
 
 (* ... and a v1 creation builds a schema that passes the v2 validation *)
@@ -578,15 +614,15 @@ Proof.
   cbn [seq String.eqb Ascii.eqb Bool.eqb]. rewrite ?gate_true by assumption. exact V.
 Qed.
 
-(* but on a collection whose schema has no vamana index named "vector" they dereference nil *)
-
-Lemma v1_nil_deref_refuted :
+(* the pinned handlers (no nil test) dereferenced nil on such a collection *)
+Lemma v1_nil_deref_refuted_v0 :
   validate_ischema flat_only_schema = true /\
-  handler_get1 flat_only_schema = Panic /\
-  handler_list1 [flat_only_schema] = Panic /\
-  validate_search1 (mkSr1 2 10) = true /\ handler_search1 flat_only_schema (mkSr1 2 10) = Panic /\
+  handler_get1_gen true flat_only_schema = Panic /\
+  handler_list1_gen true [flat_only_schema] = Panic /\
+  validate_search1 (mkSr1 2 10) = true /\ handler_search1_gen true flat_only_schema (mkSr1 2 10) = Panic /\
   validate_insert1 (mkPts1 [mkPt1 IdAbsent 2 20] 1000) = true /\
-  handler_insert1 flat_only_schema (mkPts1 [mkPt1 IdAbsent 2 20] 1000) = Panic.
+  handler_points1_gen true hdl_v1_insert_validates_first (validate_insert1 (mkPts1 [mkPt1 IdAbsent 2 20] 1000))
+                      flat_only_schema (mkPts1 [mkPt1 IdAbsent 2 20] 1000) (OpInsert 1) = Panic.
 Proof. vm_compute. repeat split; reflexivity. Qed.
 
 (* ------------------------------------------------------------------ *)
